@@ -33,3 +33,4 @@ W ::ndsparse* w_grideval(const ST* t, const double* const* coords, const size_t*
   return t->grideval(cv).release();
 }
 W void w_ndsparse_delete(photospline::ndsparse* nd){ delete nd; }
+W void w_destroy(ST* t){ t->~ST(); }
